@@ -125,6 +125,26 @@ func check(r *sup.CaseResult, x *run, res *directResult) {
 		}
 		return w
 	}
+	// commands that consume input: they got exactly the lines that follow them in the body
+	x.mu.Lock()
+	for id, got := range x.taken {
+		var want []string
+		for k := 0; k < p.probes[id].Take; k++ {
+			want = append(want, dataArgs(p.probes[id], k))
+		}
+		r.AddObs("commands_that_read_their_own_input_lines", 1)
+		if strings.Join(got, "\n") != strings.Join(want, "\n") {
+			r.Violate("command-input-mismatch", fmt.Sprintf("%s mode: probe %d reads %d line(s) from its input with ReadArguments; it got %q, the body holds %q right after its line (the command loop had read ahead, or did not stop at the command's newline)", p.Mode, id, len(want), got, want), witness())
+			break
+		}
+	}
+	x.mu.Unlock()
+	if x.lazyManager {
+		r.AddObs("programs_whose_first_submissions_created_the_manager", 1)
+	}
+	if len(x.unknownAccepted) > 0 {
+		r.Violate("accepted-task-unknown-to-the-manager", fmt.Sprintf("%s mode, %d submitters, no manager asked for beforehand: the accepted submissions %v are not tasks of the scope's task manager (TasksManager.Wait cannot wait for them, wait lists cannot name them)", p.Mode, p.Submitters, x.unknownAccepted), witness())
+	}
 	taskOf := func(t *taskSpec) pipservices.Task {
 		if res == nil {
 			return nil
